@@ -142,7 +142,7 @@ func IndexFromFile(ctx context.Context,
 		}
 		// Stop if this worker reached the end of the stream (it's not necessarily
 		// the last worker!)
-		if w.eof {
+		if w.eof && !w.skip {
 			break
 		}
 	}
@@ -168,6 +168,7 @@ type pChunker struct {
 	err   error
 	next  *pChunker
 	eof   bool
+	skip  bool // set by the previous worker when it bypasses this one, see start()
 	sync  IndexChunk
 	stats *ChunkingStats
 
@@ -233,6 +234,10 @@ func (c *pChunker) start(ctx context.Context) {
 		// If the next worker has stopped and has no more chunks in its bucket,
 		// we want to skip that and try to sync with the one after
 		if c.next != nil && !c.next.active() && len(c.next.results) == 0 {
+			// Let the main routine know that this worker's (empty) bucket is not
+			// part of the result. It may have reached the end of the stream, but
+			// the workers after it can still hold chunks that are needed.
+			c.next.skip = true
 			c.next = c.next.next
 		}
 	}
